@@ -135,6 +135,8 @@ static void clear_recs(void)
 }
 static void add_ev(char c) { if (nevs < 60) { evs[nevs++] = c; evs[nevs] = 0; } }
 
+/* an output created "lazy" gets its sink only when it asks for one (need_output), as applications do */
+static int lazy_plug(struct upipe *upipe);
 static int catch(struct uprobe *uprobe, struct upipe *upipe, int event, va_list args)
 {
     switch (event) {
@@ -142,6 +144,7 @@ static int catch(struct uprobe *uprobe, struct upipe *upipe, int event, va_list 
     case UPROBE_SYNC_LOST: add_ev('l'); break;
     case UPROBE_FATAL: add_ev('F'); break;
     case UPROBE_ERROR: add_ev('E'); break;
+    case UPROBE_NEED_OUTPUT: return lazy_plug(upipe);
     default: break;
     }
     return UBASE_ERR_NONE;
@@ -198,7 +201,17 @@ static struct upipe *sink_get(int id)
 
 /* ------------------------------------------------------------ pipes */
 static struct upipe *merger, *splitter, *joiner;
+static bool lazy_out[MAXO];
 static struct upipe *souts[MAXO], *jins[MAXO];
+static int lazy_plug(struct upipe *upipe)
+{
+    for (int o = 1; o < MAXO; o++)
+        if (souts[o] == upipe && lazy_out[o]) {
+            lazy_out[o] = false;
+            return upipe_set_output(upipe, sink_get(o));
+        }
+    return UBASE_ERR_UNHANDLED;
+}
 
 /* flow definitions come from a dictionary manager without slack over a umem
  * manager that can be told to refuse: a failed attribute write inside a pipe */
@@ -429,7 +442,9 @@ static void do_line(char *line)
         int e0 = uref_ts_flow_set_psi_filter(fd, f, m, (size_t)n);
         souts[o] = upipe_flow_alloc_sub(splitter, &probe, fd);
         uref_free(fd);
-        int e1 = souts[o] ? upipe_set_output(souts[o], sink_get(o)) : -1;
+        bool lazy = nt > 5 && !strcmp(tok[5], "lazy");
+        int e1 = !souts[o] ? -1 : lazy ? 0 : upipe_set_output(souts[o], sink_get(o));
+        lazy_out[o] = lazy;
         printf("addout o=%d r=%d,%d\n", o, e0, e1);
     } else if (!strcmp(c, "delout") && nt >= 2) {
         int o = atoi(tok[1]);
